@@ -48,6 +48,11 @@ def scenarios(tier, rng):
     bsel = [[5, 7, 1], [5, 7, 0], [hex((1 << 100) - 1), hex((1 << 192) - 1), 1], [hex((1 << 100) - 1), hex((1 << 192) - 1), 0], [0, 0, 1]]
     for op in ("bigsel_mul", "bigsel_add", "bigsel_lower_than", "bigsel_swap_mul"):
         sc.append({"name": op + "100", "kind": "stdop", "op": op, "n": 100, "witnesses": bsel, "prove": op == "bigsel_mul"})
+    # bytes (assigned, decomposed, selected) read as native values, then range-sensitive comparisons with bounds of 8 and more bits
+    bytepairs = [[3, 200], [200, 3], [0, 0], [255, 255], [255, 0]]
+    for op in ("bytes_assigned_lt", "bytes_decomposed_lt", "bytes_selected_lt", "bytes_assigned_bound"):
+        for n in (8, 16):
+            sc.append({"name": f"{op}{n}", "kind": "stdop", "op": op, "n": n, "witnesses": bytepairs, "prove": op == "bytes_assigned_lt" and n == 8})
     # the stateful map gadget: insertions that change the map, re-insertion of the stored value, the default value on an absent
     # key, overwriting; lookups of present and absent keys
     sc.append({"name": "map_insert", "kind": "stdop", "op": "map_insert", "n": 0, "witnesses": [[2, 7], [1, 5], [3, 0], [1, 6], [1, 0]], "prove": True})
